@@ -64,6 +64,16 @@ OSSLRSA::~OSSLRSA()
 	}
 }
 
+// A key object can hold any bytes: RSA_size() and the RSA primitives need a modulus
+static bool hasModulus(RSA* rsa)
+{
+	const BIGNUM* bn_n = NULL;
+
+	if (rsa != NULL) RSA_get0_key(rsa, &bn_n, NULL, NULL);
+
+	return (bn_n != NULL) && !BN_is_zero(bn_n);
+}
+
 // Signing functions
 bool OSSLRSA::sign(PrivateKey* privateKey, const ByteString& dataToSign,
 		   ByteString& signature, const AsymMech::Type mechanism,
@@ -98,6 +108,12 @@ bool OSSLRSA::sign(PrivateKey* privateKey, const ByteString& dataToSign,
 		signature.resize(osslKey->getN().size());
 
 		RSA* rsa = osslKey->getOSSLKey();
+		if (!hasModulus(rsa))
+		{
+			ERROR_MSG("The RSA key has no modulus");
+
+			return false;
+		}
 
 		if (!RSA_blinding_on(rsa, NULL))
 		{
@@ -174,6 +190,12 @@ bool OSSLRSA::sign(PrivateKey* privateKey, const ByteString& dataToSign,
 		OSSLRSAPrivateKey* osslKey = (OSSLRSAPrivateKey*) privateKey;
 
 		RSA* rsa = osslKey->getOSSLKey();
+		if (!hasModulus(rsa))
+		{
+			ERROR_MSG("The RSA key has no modulus");
+
+			return false;
+		}
 
 		if (dataToSign.size() != allowedLen)
 		{
@@ -253,6 +275,12 @@ bool OSSLRSA::sign(PrivateKey* privateKey, const ByteString& dataToSign,
 		signature.resize(osslKey->getN().size());
 
 		RSA* rsa = osslKey->getOSSLKey();
+		if (!hasModulus(rsa))
+		{
+			ERROR_MSG("The RSA key has no modulus");
+
+			return false;
+		}
 
 		if (!RSA_blinding_on(rsa, NULL))
 		{
@@ -611,6 +639,12 @@ bool OSSLRSA::signFinal(ByteString& signature)
 	unsigned int sigLen = signature.size();
 
 	RSA* rsa = pk->getOSSLKey();
+	if (!hasModulus(rsa))
+	{
+		ERROR_MSG("The RSA key has no modulus");
+
+		return false;
+	}
 
 	if (!RSA_blinding_on(rsa, NULL))
 	{
@@ -699,6 +733,12 @@ bool OSSLRSA::verify(PublicKey* publicKey, const ByteString& originalData,
 		recoveredData.resize(osslKey->getN().size());
 
 		RSA* rsa = osslKey->getOSSLKey();
+		if (!hasModulus(rsa))
+		{
+			ERROR_MSG("The RSA key has no modulus");
+
+			return false;
+		}
 
 		int retLen = RSA_public_decrypt(signature.size(), (unsigned char*) signature.const_byte_str(), &recoveredData[0], rsa, RSA_PKCS1_PADDING);
 
@@ -740,6 +780,12 @@ bool OSSLRSA::verify(PublicKey* publicKey, const ByteString& originalData,
 		recoveredData.resize(osslKey->getN().size());
 
 		RSA* rsa = osslKey->getOSSLKey();
+		if (!hasModulus(rsa))
+		{
+			ERROR_MSG("The RSA key has no modulus");
+
+			return false;
+		}
 
 		int retLen = RSA_public_decrypt(signature.size(), (unsigned char*) signature.const_byte_str(), &recoveredData[0], rsa, RSA_NO_PADDING);
 
@@ -819,6 +865,12 @@ bool OSSLRSA::verify(PublicKey* publicKey, const ByteString& originalData,
 		recoveredData.resize(osslKey->getN().size());
 
 		RSA* rsa = osslKey->getOSSLKey();
+		if (!hasModulus(rsa))
+		{
+			ERROR_MSG("The RSA key has no modulus");
+
+			return false;
+		}
 
 		int retLen = RSA_public_decrypt(signature.size(), (unsigned char*) signature.const_byte_str(), &recoveredData[0], rsa, RSA_NO_PADDING);
 
@@ -1107,6 +1159,13 @@ bool OSSLRSA::verifyFinal(const ByteString& signature)
 		return false;
 	}
 
+	if (!hasModulus(pk->getOSSLKey()))
+	{
+		ERROR_MSG("The RSA key has no modulus");
+
+		return false;
+	}
+
 	ByteString digest = firstHash + secondHash;
 
 	// Determine the signature NID type
@@ -1218,11 +1277,7 @@ bool OSSLRSA::encrypt(PublicKey* publicKey, const ByteString& data,
 
 	// Retrieve the OpenSSL key object
 	RSA* rsa = ((OSSLRSAPublicKey*) publicKey)->getOSSLKey();
-
-	// The key object may carry any bytes: without a modulus RSA_size() cannot be used
-	const BIGNUM* bn_n = NULL;
-	if (rsa != NULL) RSA_get0_key(rsa, &bn_n, NULL, NULL);
-	if (bn_n == NULL || BN_is_zero(bn_n))
+	if (!hasModulus(rsa))
 	{
 		ERROR_MSG("The RSA key has no modulus");
 
@@ -1304,11 +1359,7 @@ bool OSSLRSA::decrypt(PrivateKey* privateKey, const ByteString& encryptedData,
 
 	// Retrieve the OpenSSL key object
 	RSA* rsa = ((OSSLRSAPrivateKey*) privateKey)->getOSSLKey();
-
-	// The key object may carry any bytes: without a modulus RSA_size() cannot be used
-	const BIGNUM* bn_n = NULL;
-	if (rsa != NULL) RSA_get0_key(rsa, &bn_n, NULL, NULL);
-	if (bn_n == NULL || BN_is_zero(bn_n))
+	if (!hasModulus(rsa))
 	{
 		ERROR_MSG("The RSA key has no modulus");
 
